@@ -265,6 +265,7 @@ package s2
 //@   ensures [err-kept] vcErrKept(d, old(d.err), old(vcErrorRaised()))
 //@   ensures vcDecoderOK(d)
 //@   loop 1 (rangeindex int): invariant vcDecoderOK(d) && p != nil && vcErrKept(d, old(d.err), old(vcErrorRaised()))
+//@   loop 1: invariant [loops-set] forall k int :: 0 <= k && k <= rangeindex ==> p.loops[k] != nil
 
 //@ func (p *Polygon) decodeCompressed(d *decoder)
 //@   requires p != nil && vcDecoderOK(d)
